@@ -243,7 +243,7 @@ class Engine(object):
         sym.NONNEG_HOOK[0] = self._entails_nonneg
         self.explore_budget_s = 300    # wall clock per contract: beyond it the function counts as outside the supported subset (undecided)
         self.axioms = []           # global axioms (about uninterpreted functions) added to every query
-        # wall clock for ALL explorations of one check: once it is used up every further contract gets 10 s (a changed tree that makes
+        # wall clock for ALL explorations of one check: once it is used up every further contract gets 5 s (a changed tree that makes
         # each of 28 lemmas expensive must end in a verdict, not in hours of exploration); unchanged tree: < 150 s in every check
         self.explore_total_budget_s = 600
         self.explore_total_s = 0.0
@@ -254,7 +254,7 @@ class Engine(object):
         work = [[]]
         out = []
         t_start = time.time()
-        budget = min(self.explore_budget_s, max(10, self.explore_total_budget_s - self.explore_total_s))
+        budget = min(self.explore_budget_s, max(5, self.explore_total_budget_s - self.explore_total_s))
         try:
             return self._explore(thunk, max_paths, pc0, work, out, t_start, budget)
         finally:
